@@ -390,6 +390,11 @@ impl Recorder {
         g.order.clear();
         std::mem::take(&mut g.unknown).into_values().flat_map(|gr| gr.first).collect()
     }
+    /// occurrences recorded so far under `clause` (unknown groups): lets a check stop spending its budget on a
+    /// failure it has already established many times over
+    pub fn occurrences(&self, clause: &str) -> u64 {
+        self.inner.lock().unwrap().unknown.values().filter(|g| g.first.first().map_or(false, |v| v.clause == clause)).map(|g| g.count).sum()
+    }
     pub fn unknown_count(&self) -> u64 {
         self.inner.lock().unwrap().unknown.values().map(|g| g.count).sum()
     }
